@@ -50,6 +50,33 @@ func loopPasses(f *ssa.Function, in ssa.Instruction, skip func(Edge) bool) (bool
 	return true, nil
 }
 
+// chainPasses: `in` (in f or in a helper carved out of f) is executed on every way round the loop it belongs
+// to, where the loop may sit in f while `in` sits in the helper: at every level below the loop each return of
+// the helper lies behind the instruction (or the helper's call), at the loop's level loopPasses holds. skip
+// names, per function, the edges over which the instruction may be avoided.
+func chainPasses(f *ssa.Function, in ssa.Instruction, skip func(g *ssa.Function) map[Edge]bool) (bool, []*ssa.BasicBlock) {
+	chain := siteChain(f, in)
+	if chain == nil {
+		return false, nil
+	}
+	for _, ln := range chain {
+		g, at := ln.fn, ln.at
+		sk := map[Edge]bool{}
+		if skip != nil {
+			sk = skip(g)
+		}
+		if loopOf(at) != nil {
+			return loopPasses(g, at, func(e Edge) bool { return sk[e] })
+		}
+		for _, r := range returnsOf(g) {
+			if reach, path := reachFromEntry(g, sk, func(x ssa.Instruction) bool { return x == at }, r); reach {
+				return false, path
+			}
+		}
+	}
+	return false, nil
+}
+
 func init() {
 	// ------------------------------------------------------------------ C12.R15
 	register("C12", "R15", "K2", "Update remembers every committed transaction the application accepted (cache.Push on every way round the loop with code OK), whether or not it was in the pool", 2, func(c *Ctx) {
@@ -61,16 +88,20 @@ func init() {
 				continue
 			}
 			fk := funcKey(f)
-			okG := guardCmp("DeliverTx code OK", `.*\[`+fwdIdx+`\]\.Code`, "==", "0")
 			for _, p := range w.callsMatching(f, `\.cache\.Push\(`) {
 				n++
-				notOK := map[Edge]bool{}
-				for _, ea := range condEdges(f) {
-					if ea.A.Kind == "cmp" && !okG.Match(w, f, ea.A) && ea.A.X != nil && strings.HasSuffix(w.expr(ea.A.X), ".Code") {
-						notOK[ea.E] = true
+				notOKIn := func(g *ssa.Function) map[Edge]bool {
+					m := map[Edge]bool{}
+					for _, ea := range condEdges(g) {
+						if ea.A.Kind == "cmp" && ea.A.X != nil && strings.HasSuffix(w.expr(ea.A.X), ".Code") {
+							if k, isC := constInt(ea.A.Y); isC && k == 0 && ea.A.Op == token.NEQ {
+								m[ea.E] = true
+							}
+						}
 					}
+					return m
 				}
-				ok, path := loopPasses(f, p, func(e Edge) bool { return notOK[e] })
+				ok, path := chainPasses(f, p, notOKIn)
 				c.Check(ok, fk+" :: every accepted committed tx goes into the cache", w.ipos(p), "Push on every way round the loop with code OK", "a committed transaction the application accepted can pass the loop without being remembered (a later copy of it is admitted again): "+pathStr(w, path))
 			}
 		}
@@ -197,22 +228,21 @@ func init() {
 		}
 		fk := funcKey(f)
 		n := 0
-		for _, b := range f.Blocks {
-			for _, in := range b.Instrs {
-				mu, ok := in.(*ssa.MapUpdate)
-				if !ok || loopOf(mu) == nil {
-					continue
-				}
-				n++
-				noKey := map[Edge]bool{}
-				for _, ea := range condEdges(f) {
-					if guardCmp("k", `len\(.*\.Attributes\[.*\]\.Key\)`, "==", "0").Match(w, f, ea.A) {
-						noKey[ea.E] = true
-					}
-				}
-				ok2, path := loopPasses(f, mu, func(e Edge) bool { return noKey[e] })
-				c.Check(ok2, fk+" :: an attribute with a key is published", w.ipos(mu), "only an empty key is skipped", "an attribute that has a key can be left out of the published map (subscribers miss events the indexer indexes): "+pathStr(w, path))
+		for _, di := range w.deepInstrs(f, 2) {
+			mu, ok := di.in.(*ssa.MapUpdate)
+			if !ok || loopOf(mu) == nil {
+				continue
 			}
+			n++
+			g := mu.Parent()
+			noKey := map[Edge]bool{}
+			for _, ea := range condEdges(g) {
+				if guardCmp("k", `len\(.*\.Attributes\[.*\]\.Key\)|len\(\w+\.Key\)`, "==", "0").Match(w, g, ea.A) {
+					noKey[ea.E] = true
+				}
+			}
+			ok2, path := loopPasses(g, mu, func(e Edge) bool { return noKey[e] })
+			c.Check(ok2, fk+" :: an attribute with a key is published", w.ipos(mu), "only an empty key is skipped", "an attribute that has a key can be left out of the published map (subscribers miss events the indexer indexes): "+pathStr(w, path))
 		}
 		c.Check(n == 1, fk+" :: attribute publication found", w.pos(f.Pos()), "1", fmt.Sprintf("%d", n))
 	})
@@ -229,10 +259,12 @@ func init() {
 			fk := funcKey(f)
 			// the select's first state is the send of the command
 			sendFirst := false
-			for _, b := range f.Blocks {
-				for _, in := range b.Instrs {
-					if sel, ok := in.(*ssa.Select); ok && len(sel.States) > 0 && sel.States[0].Dir == types.SendOnly && strings.HasSuffix(w.expr(sel.States[0].Chan), ".cmds") {
-						sendFirst = true
+			for _, g := range pkgCallees(f, 2) {
+				for _, b := range g.Blocks {
+					for _, in := range b.Instrs {
+						if sel, ok := in.(*ssa.Select); ok && len(sel.States) > 0 && sel.States[0].Dir == types.SendOnly && strings.HasSuffix(w.expr(sel.States[0].Chan), ".cmds") {
+							sendFirst = true
+						}
 					}
 				}
 			}
@@ -259,13 +291,22 @@ func init() {
 		for _, ap := range w.callsTo(f, "state#BlockExecutor.ApplyBlock") {
 			n++
 			recv := w.expr(callRecv(ap))
-			ok, path := mustPrecede(f, ap, func(in ssa.Instruction) bool {
-				call, isCall := in.(ssa.CallInstruction)
-				if !isCall || !w.isCall(call, "state#BlockExecutor.SetEventBus") {
-					return false
+			// the call that sets the bus — here, or in a helper of this package that builds the executor (then
+			// on every path of that helper)
+			sites := map[ssa.Instruction]bool{}
+			for _, dc := range w.deepCallsTo(f, 2, "state#BlockExecutor.SetEventBus") {
+				if !regexp.MustCompile(`^\w+\.eventBus$`).MatchString(dc.arg(0)) || w.exprWith(callRecv(dc.call), dc.sub) != recv {
+					continue
 				}
-				return w.expr(callRecv(call)) == recv && regexp.MustCompile(`^\w+\.eventBus$`).MatchString(w.expr(callArgs(call)[0]))
-			})
+				if dc.call.Parent() != f {
+					h := dc.call.Parent()
+					if !w.alwaysCalls(h, 0, "state#BlockExecutor.SetEventBus") {
+						continue
+					}
+				}
+				sites[dc.site] = true
+			}
+			ok, path := mustPrecede(f, ap, func(in ssa.Instruction) bool { return sites[in] })
 			c.Check(ok, fk+" :: the executor that applies the block publishes on the handshaker's event bus", w.ipos(ap), "SetEventBus(h.eventBus) first", "the block is applied by an executor with the no-op bus: its NewBlock and Tx events are never published and never indexed ("+pathStr(w, path)+")")
 		}
 		c.Check(n == 1, fk+" :: ApplyBlock found", w.pos(f.Pos()), "1", fmt.Sprintf("%d", n))
@@ -312,10 +353,33 @@ func init() {
 						same[ea.E] = true
 					}
 				}
-				reach, path := reachFromEntry(f, same, func(x ssa.Instruction) bool {
-					call, isCall := x.(ssa.CallInstruction)
-					return isCall && w.isCall(call, "blockchain/v2#pcState.purgePeer") && w.expr(callArgs(call)[0]) == peer
-				}, st)
+				// the purge of that peer: a direct call, or one inside a helper of this package which then makes
+				// it on every path (but for the two-peers-are-one edge)
+				kills := map[ssa.Instruction]bool{}
+				for _, dc := range w.deepCallsTo(f, 2, "blockchain/v2#pcState.purgePeer") {
+					if dc.arg(0) != peer {
+						continue
+					}
+					if h := dc.call.Parent(); h != f {
+						sameH := map[Edge]bool{}
+						for _, ea := range condEdges(h) {
+							if ea.A.Kind == "cmp" && ea.A.Op == token.EQL {
+								sameH[ea.E] = true
+							}
+						}
+						always := true
+						for _, r := range returnsOf(h) {
+							if rr, _ := reachFromEntry(h, sameH, func(x ssa.Instruction) bool { return x == ssa.Instruction(dc.call.(*ssa.Call)) }, r); rr {
+								always = false
+							}
+						}
+						if !always {
+							continue
+						}
+					}
+					kills[dc.site] = true
+				}
+				reach, path := reachFromEntry(f, same, func(x ssa.Instruction) bool { return kills[x] }, st)
 				c.Check(!reach, fk+" :: report a verification failure naming "+fld, w.ipos(st), "that peer's blocks purged first", "the failure is reported (the scheduler removes the peer and re-requests its heights) while the processor keeps the peer's other blocks: the re-fetched block is a duplicate and the processor panics ("+pathStr(w, path)+")")
 			}
 		}
@@ -353,9 +417,16 @@ func init() {
 	register("C11", "R13", "K8", "duplicate-vote evidence is built in the order its own validation demands (same comparison over the same projection of the two votes)", 3, func(c *Ctx) {
 		w := c.W
 		type cmpUse struct{ callee, p0, p1 string }
-		find := func(f *ssa.Function) []cmpUse {
+		find := func(f0 *ssa.Function) []cmpUse {
 			var out []cmpUse
-			for _, call := range rawCallInstrs(f) {
+			var calls []ssa.CallInstruction
+			for _, g := range pkgCallees(f0, 1) {
+				if g != f0 && !isNewFunc(g) {
+					continue
+				}
+				calls = append(calls, rawCallInstrs(g)...)
+			}
+			for _, call := range calls {
 				d, ok := describeCallee(call)
 				if !ok || d.Name != "Compare" || (d.Pkg != "strings" && d.Pkg != "bytes") {
 					continue
